@@ -21,14 +21,35 @@ def U(tier, quick, thorough=None):
     return quick if tier == 'quick' else (thorough if thorough is not None else quick * 10)
 
 
-def _linalg_leg(tier, oracles, units=24, probes=(), **over):
+def _linalg_leg(tier, oracles, units=24, probes=(), name='linalg-fault-enumeration', **over):
     """Internal-seam fault enumeration (legs.leg_ifaults): the j-th linear solve of the interpolation system that dfols makes
     inside one of its own LinAlgError handlers fails, for every j of a fault-free reference run; restarts mostly on, so that the
     failure is followed by the soft / hard restart branches of the main loop that nothing else reaches."""
     prof = dict(p_restarts=0.85, p_hard=0.3, p_growing=0.0, p_buggify=0.5, p_nanregion=0.0, maxfun_choices=[30, 45, 60], p_regression=0.4)
     prof.update(over)
-    return dict(name='linalg-fault-enumeration', leg='ifaults', units=U(tier, units, units * 8), opts=dict(oracles=oracles, probes=probes,
-                ref_budget_cap=U(tier, 50, 80), profile=P(**prof)))
+    mutate = prof.pop('mutate', None)
+    cap = prof.pop('ref_budget_cap', None)
+    return dict(name=name, leg='ifaults', units=U(tier, units, units * 8), opts=dict(oracles=oracles, probes=probes, mutate=mutate,
+                ref_budget_cap=cap or U(tier, 50, 80), profile=P(**prof)))
+
+
+def _short_rho(scn):
+    """Scenario mutation: rhoend within 1.5 decades of rhobeg, soft restarts with rhoend_scale < 1 and a generous budget, so that runs
+    reach 'rho has reached rhoend' several times (hand-written mutant M22: a restart branch that forgets to rescale the solver's rhoend
+    survived the first version of the linear-algebra fault leg, whose runs never got that far)."""
+    a = scn['args']
+    eff = S.effective(scn)
+    o = scn['origin']
+    pick = (int(o['index']) * 7 + 3) % 5
+    a['rhoend'] = float(eff['rhobeg']) * [0.3, 0.1, 0.1, 0.05, 0.03][pick]
+    a['maxfun'] = 120
+    up = [kv for kv in a['user_params'] if kv[0] not in ('restarts.use_restarts', 'restarts.use_soft_restarts', 'restarts.rhoend_scale',
+                                                         'restarts.max_unsuccessful_restarts', 'model.abs_tol', 'model.rel_tol')]
+    up += [['restarts.use_restarts', True], ['restarts.use_soft_restarts', True], ['restarts.rhoend_scale', [0.5, 0.1][pick % 2]],
+           ['restarts.max_unsuccessful_restarts', 3]]
+    a['user_params'] = up
+    S.fix_consistency(scn)
+    scn['features'] = S.features(scn)
 
 
 def _target_leg(tier, oracles, units=40, probes=(), **over):
@@ -118,6 +139,7 @@ def _c10(tier):
             p_restarts=0.6, p_growing=0.0, p_faults=1.0, allow_raise=False, maxfun_choices=BUDGETS_BIG))),
         _linalg_leg(tier, ['C10'], p_nsamples=0.4, p_noise=0.4, p_buggify=0.8),
         _target_leg(tier, ['C10']),
+        _linalg_leg(tier, ['C10'], units=10, name='linalg-fault-enumeration-short-rho', mutate=_short_rho, ref_budget_cap=120, p_nsamples=0.2, p_noise=0.3),
     ]
 
 
@@ -182,6 +204,7 @@ def _c18(tier):
         _linalg_leg(tier, ['C18'], p_diag=1.0, p_nsamples=0.4, p_noise=0.4),
         dict(name='long-march', leg='swarm', units=U(tier, 40), opts=dict(per_unit=8, oracles=['C18'], salt='march', mutate=_long_march, profile=P(
             p_diag=1.0, p_bounds=0.0, p_nsamples=0.2, p_noise=0.2, p_restarts=0.4, p_growing=0.0, p_nanregion=0.0, p_int_dtype=0.0, maxfun_choices=[40, 60, 100, 150]))),
+        _linalg_leg(tier, ['C18'], units=10, name='linalg-fault-enumeration-short-rho', mutate=_short_rho, ref_budget_cap=120, p_diag=1.0, p_nsamples=0.2, p_noise=0.3),
     ]
 
 
@@ -194,6 +217,7 @@ def _c20(tier):
             p_diag=0.5, p_restarts=0.6, p_growing=0.0, p_faults=1.0, allow_raise=False, maxfun_choices=BUDGETS_BIG))),
         dict(name='convex-and-regularised', leg='swarm', units=U(tier, 60), opts=dict(per_unit=2, oracles=['C20'], salt='cr', profile=P(
             p_diag=0.5, p_sets=0.6, p_reg=0.5, p_restarts=0.4, p_growing=0.0))),
+        _linalg_leg(tier, ['C20'], units=16, p_diag=0.5),
     ]
 
 
@@ -212,6 +236,7 @@ def _c07(tier):
         dict(name='exit-routes-growing', leg='swarm', units=U(tier, 60), opts=dict(per_unit=8, oracles=['C07'], salt='growing', profile=P(
             p_growing=1.0, p_restarts=0.4, maxfun_choices=BUDGETS_BIG))),
         _linalg_leg(tier, ['C07'], p_nsamples=0.3, p_diag=0.3),
+        _linalg_leg(tier, ['C07'], units=10, name='linalg-fault-enumeration-growing', p_growing=1.0, p_restarts=0.7),
     ]
 
 
